@@ -372,6 +372,13 @@ def run(chk, replay=None):
                 print('replay: <%s> %s=%r -> %s' % (el[1], attr[1], dec_str(v), res))
             print('replay: a fresh process gives %s for the last call' % inp['fresh'])
             return 0 if res == inp['fresh'] else 1
+        if inp.get('python') == 'str subclass':
+            class Text(str):
+                pass
+            el, attr, v = tuple(inp['element']), tuple(inp['attribute']), dec_str(inp['value'])
+            r1, r2 = set_get(el, attr, Text(v))[1], set_get(el, attr, v)[1]
+            print('replay: <%s> %s=%r as a str subclass -> %s, as a str -> %s' % (el[1], attr[1], v, r1, r2))
+            return 0 if r1 == r2 else 1
         if 'python' in inp and 'value' not in inp:
             import math
             from decimal import Decimal
@@ -803,10 +810,11 @@ def run(chk, replay=None):
     # a str subclass is a str
     for (e, a, v, expect, dt, cnvname), ans in [ca for i, ca in enumerate(zip(cases, answers)) if i % 7 == 0]:
         el, res = set_get(e, a, Text(v))
-        chk.corr(); chk.count('typed_str_subclass')
-        if res != ans:
+        _, plain = set_get(e, a, v)
+        chk.count('typed_str_subclass')
+        if res != plain:
             chk.fail('typed-arg:str-subclass:%s' % cnvname, {'element': list(e), 'attribute': list(a), 'value': enc_str(v), 'python': 'str subclass'},
-                     '<%s> %s=%r given as an instance of a str subclass gave %s, as a str %s' % (e[1], a[1], v, res, ans))
+                     '<%s> %s=%r given as an instance of a str subclass gave %s, as a str %s' % (e[1], a[1], v, res, plain))
 
     # ------------------------------------------------------------ search when a proof or the correspondence broke
     def deep():
